@@ -638,7 +638,10 @@ class DCMotor(MotorBase):
         """
         maximum_electric_current = self.pwm*self.maximum_electric_current
         pwm_min = self.no_load_electric_current/self.maximum_electric_current
-        if abs(self.pwm) <= pwm_min:
+        if abs(maximum_electric_current.value) <= \
+                self.no_load_electric_current.to(
+                    maximum_electric_current.unit
+                ).value:
             if pwm_min == 0:
                 self.electric_current = Current(
                     value=0,
@@ -650,7 +653,7 @@ class DCMotor(MotorBase):
                         self.maximum_electric_current.unit
                     )
             return
-        elif self.pwm > pwm_min:
+        elif self.pwm > 0:
             no_load_electric_current = self.no_load_electric_current
             maximum_torque = \
                 self.maximum_torque*(
